@@ -131,6 +131,9 @@ func reJSON(g geom.Geom) string {
 func runCase(line string) (res string) {
 	p := vproto.NewParser(line)
 	kind := p.Next()
+	if kind == "batch" {
+		return runBatch(line)
+	}
 	var call func() (geom.Geom, error)
 	family := "wkb"
 	switch kind {
